@@ -139,6 +139,7 @@ func genSubWalk(r *rng) []nStep {
 
 func runSubs(dir string, seed uint64, tier string) {
 	res := newResult("subs", seed, tier)
+	slowSubscriberProbe(res)
 	r := newRng(seed)
 	n := 220
 	if tier == "thorough" {
